@@ -216,6 +216,11 @@ func (column *ColumnData) SetDataLength(length uint32) {
 
 // parseColumns split whole data row packet into separate columns data
 func (packet *PacketHandler) parseColumns(columnFormats []uint16) error {
+	// a data row carries at least the 2-byte column count; slicing [:2] of a shorter
+	// buffer would read stale bytes of an earlier packet (within capacity) and panic on [2:]
+	if packet.descriptionBuf.Len() < 2 {
+		return ErrPacketTruncated
+	}
 	packet.columnCount = int(binary.BigEndian.Uint16(packet.descriptionBuf.Bytes()[:2]))
 
 	if packet.columnCount == 0 {
@@ -227,6 +232,11 @@ func (packet *PacketHandler) parseColumns(columnFormats []uint16) error {
 		column := &ColumnData{}
 		if err := column.ReadLength(columnReader); err != nil {
 			return err
+		}
+		// validate the declared column length against the remaining packet data
+		// before readData allocates a buffer of that size (up to 4 GiB otherwise)
+		if length := column.Length(); int32(length) != NullColumnValue && length > columnReader.Len() {
+			return ErrPacketTruncated
 		}
 		format, err := GetParameterFormatByIndex(i, columnFormats)
 		if err != nil {
@@ -460,6 +470,9 @@ func (packet *PacketHandler) readDataLength() error {
 	return nil
 }
 
+// maxPacketPreallocation bounds the memory reserved on the word of a length field alone
+const maxPacketPreallocation = 1 << 20
+
 // readData part of packet
 func (packet *PacketHandler) readData(readLength bool) error {
 	if readLength {
@@ -467,7 +480,18 @@ func (packet *PacketHandler) readData(readLength bool) error {
 			return err
 		}
 	}
-	packet.descriptionBuf.Grow(packet.dataLength)
+	// the length field counts itself (and the tag of a startup message): smaller
+	// values are malformed and would make bytes.Buffer.Grow panic with a negative count
+	if packet.dataLength < 0 {
+		return ErrPacketTruncated
+	}
+	// the declared length is not trusted: pre-allocate a bounded amount only, io.CopyN grows
+	// the buffer as data actually arrives (a 5-byte message could otherwise demand 4 GiB)
+	preallocate := packet.dataLength
+	if preallocate > maxPacketPreallocation {
+		preallocate = maxPacketPreallocation
+	}
+	packet.descriptionBuf.Grow(preallocate)
 	packet.logger.Debugln("Read data")
 	nn, err := io.CopyN(packet.descriptionBuf, packet.reader, int64(packet.dataLength))
 	return base.CheckReadWrite(int(nn), packet.dataLength, err)
